@@ -77,7 +77,7 @@ def work(p):
     for spec in p["modules"]:
         rng = random.Random(spec["seed"])
         nested = spec.get("nested", False)
-        m = gm.Mod(rng, spec["name"], {"nested_classes": nested, "pattern": spec.get("pattern")}).build(spec.get("nfuncs", 10))
+        m = gm.Mod(rng, spec["name"], {"nested_classes": nested, "pattern": spec.get("pattern"), "wrapped": True}).build(spec.get("nfuncs", 10))
         res.count("evaluations")
         try:
             tmod, path = modrun.load(d, m)
@@ -104,7 +104,27 @@ def work(p):
         traced = {t.func.__qualname__ for t in traces}
         if not traced:
             continue
+        if any(f.subdeco for f in m.funcs if f.qual in traced):
+            res.count("modules_with_traced_descriptor_subclass")
+        if any(f.wrapped and f.flavor == "coro" for f in m.funcs if f.qual in traced):
+            res.count("modules_with_traced_wrapped_coroutine")
         try:
+            if spec.get("store") or any(f.wrapped for f in m.funcs):
+                # what `monkeytype stub` does: rows of the store decoded back to functions by module and qualified name, undecodable
+                # rows skipped (the frame of a functools.wraps wrapper is traced too, under the wrapped function's name: for a
+                # coroutine function its return type is the coroutine object's, which does not decode)
+                from monkeytype.db.sqlite import SQLiteStore
+
+                st = SQLiteStore.make_store(":memory:")
+                st.add(traces)
+                traces = []
+                for th in st.filter(m.name, limit=100000):
+                    try:
+                        traces.append(th.to_trace())
+                    except Exception:
+                        res.count("undecodable_rows_skipped")
+                st.conn.close()
+                res.count("modules_through_store")
             stubs = build_module_stubs_from_traces(traces, 0)
             text = stubs[m.name].render()
         except Exception as e:
@@ -128,7 +148,7 @@ def run(ck):
         r = ck.rng("m", i)
         pat = [bool((i >> b) & 1) for b in range(5)] if i % 3 == 0 else None
         specs.append({"name": f"vfm12_{ck.seed}_{i}", "seed": f"C12:{ck.seed}:{i}", "nfuncs": r.choice([6, 10, 14]), "nested": r.random() < 0.1,
-                      "real": r.random() < 0.6, "pattern": pat})
+                      "real": r.random() < 0.6, "pattern": pat, "store": i % 3 == 1})
     specs.insert(0, {"name": f"vfm12_pinned_nested_{ck.seed}", "seed": "C12:pinned-nested", "nfuncs": 14, "nested": True, "real": True, "pattern": None})
     k = core.NPROC * (2 if quick else 8)
     for r in core.pmap("vf.props.c12:work", [{"modules": specs[i::k]} for i in range(k)], timeout=3400):
@@ -137,6 +157,9 @@ def run(ck):
     ck.need("param_patterns", 24, "parameter-kind presence patterns unseen")
     ck.need("signatures_wrapped", 20, "no signature wrapped across lines")
     ck.need("real_traced_modules", 100)
+    ck.need("modules_through_store", 200)
+    ck.need("modules_with_traced_descriptor_subclass", 50)
+    ck.need("modules_with_traced_wrapped_coroutine", 20)
     return ck.finish(
         rule="generated modules (functions/methods of every kind, every presence pattern of positional-only / positional / *args / keyword-only "
         "/ **kwargs parameters with and without defaults incl. None, long names forcing wrapping, coroutine functions, generators, "
